@@ -56,6 +56,7 @@ type Exec struct {
 	entryDecr  *Term
 	pendingTop []string
 	freshOnly  map[string]*Sort
+	resTypes   map[string][]types.Type
 }
 
 type execAbort struct{ msg string }
@@ -345,6 +346,7 @@ func (x *Exec) runBlock(fr *Frame, b *ssa.BasicBlock, idx int, st *State, k cont
 					rv = nameBig(t)
 				}
 				x.trackPropagates(fr, st2, call.Common(), rets)
+				x.trackResults(fr, st2, call.Common(), rets)
 				fr2.regs[call] = rv
 				x.runBlock(fr2, b, i+1, st2, k)
 			})
@@ -1075,6 +1077,70 @@ func (x *Exec) trackPropagates(fr *Frame, st *State, cc *ssa.CallCommon, rets []
 			cur = False
 		}
 		st.ghostV[failedKey(p.Label)] = Or(cur, cond)
+	}
+}
+
+// trackResults records, for `tracks` / `propagates` callees, that the call happened and what it returned
+// (called("callee"), result("callee", j) in the function's own ensures clauses and invariants).
+func (x *Exec) trackResults(fr *Frame, st *State, cc *ssa.CallCommon, rets []Value) {
+	if x.c == nil || len(x.c.Propagates) == 0 || fr.fn != x.fn {
+		return
+	}
+	names := calleeNames(cc)
+	for _, p := range x.c.Propagates {
+		for _, n := range names {
+			if n != p.Label {
+				continue
+			}
+			st.ghostV["called|"+p.Label] = True
+			for j, r := range rets {
+				st.ghostV[fmt.Sprintf("res|%s|%d", p.Label, j)] = r
+			}
+		}
+	}
+}
+
+// trackedResultTypes: result types of the tracked callees, from the call sites in the function under verification.
+func (x *Exec) trackedResultTypes() map[string][]types.Type {
+	if x.resTypes != nil {
+		return x.resTypes
+	}
+	x.resTypes = map[string][]types.Type{}
+	if x.c == nil || len(x.c.Propagates) == 0 {
+		return x.resTypes
+	}
+	for _, b := range x.fn.Blocks {
+		for _, in := range b.Instrs {
+			call, ok := in.(*ssa.Call)
+			if !ok {
+				continue
+			}
+			cc := call.Common()
+			for _, n := range calleeNames(cc) {
+				for _, p := range x.c.Propagates {
+					if n == p.Label {
+						var ts []types.Type
+						res := cc.Signature().Results()
+						for j := 0; j < res.Len(); j++ {
+							ts = append(ts, res.At(j).Type())
+						}
+						x.resTypes[p.Label] = ts
+					}
+				}
+			}
+		}
+	}
+	return x.resTypes
+}
+
+// havocTracked: at a loop head nothing is known about the calls made by earlier iterations.
+func (x *Exec) havocTracked(st *State) {
+	for _, p := range x.c.Propagates {
+		st.ghostV[failedKey(p.Label)] = Const(freshName("loop|failed|"+p.Label), BoolS)
+		st.ghostV["called|"+p.Label] = Const(freshName("loop|called|"+p.Label), BoolS)
+		for j, t := range x.trackedResultTypes()[p.Label] {
+			st.ghostV[fmt.Sprintf("res|%s|%d", p.Label, j)] = st.fresh(t, "loop|res|"+p.Label)
+		}
 	}
 }
 
